@@ -418,8 +418,10 @@ func judgeInbound(o specOutcome, obs inObs) (string, string) {
 		if obs.Kind == 1 && o.Allowed[obs.A] {
 			return "", ""
 		}
-		if obs.Kind == 0 && o.Allowed[1009] && len(o.Allowed) == 1 {
-			return "", "" // cannot happen; kept for clarity
+		// a truncated deflate stream makes the inflater itself report io.ErrUnexpectedEOF: that is a failure of
+		// the message, not the end of the transport; the status gws wrote decides
+		if obs.Kind == 0 && obs.A == 1 && o.Allowed[obs.C] {
+			return "", ""
 		}
 		return fmt.Sprintf("%s: connection ended kind=%d status=%d, acceptable statuses %v", o.Why, obs.Kind, obs.A, keys(o.Allowed)), "fail-status"
 	case "peerclose":
@@ -527,4 +529,13 @@ func collectUtf8Candidates(stream []byte, o specOutcome, add func([]byte)) {
 			add(cur)
 		}
 	}
+}
+
+// allocBudget bounds the bytes allocated (cumulatively, process-wide: runtime.MemStats.TotalAlloc) while one stream is
+// read with the given limit.  A buffer grown by doubling up to the limit allocates 2*limit in total, gws holds the frame
+// and the reassembled/inflated message, the recording handler copies the payload once more; anything that buffers
+// "substantially more than the limit" (an unchecked declared length, an unbounded reassembly or inflate) is orders of
+// magnitude above this.
+func allocBudget(limit, streamLen int) uint64 {
+	return uint64(8*limit) + (4 << 20) + uint64(2*streamLen)
 }
